@@ -41,8 +41,6 @@ Definition audited_risky : list (string * string * nat * nat * nat * nat) := [
   ("py", "ParseTupleAndKeywords", 0%nat, 3%nat, 1%nat, 0%nat);
   ("py", "parseFormat", 0%nat, 2%nat, 2%nat, 0%nat);
   ("py", "UnpackTuple", 0%nat, 2%nat, 0%nat, 0%nat);
-  ("py", "BigInt.M__truediv__", 1%nat, 0%nat, 0%nat, 0%nat);
-  ("py", "BigInt.M__rtruediv__", 1%nat, 0%nat, 0%nat, 0%nat);
   ("py", "BoundMethod.M__call__", 0%nat, 1%nat, 1%nat, 0%nat);
   ("py", "BytesNew", 1%nat, 0%nat, 0%nat, 0%nat);
   ("py", "Bytes.M__add__", 0%nat, 0%nat, 2%nat, 0%nat);
@@ -54,6 +52,7 @@ Definition audited_risky : list (string * string * nat * nat * nat * nat) := [
   ("py", "Code.InitCell2arg", 0%nat, 3%nat, 0%nat, 0%nat);
   ("py", "Code.Addr2Line", 0%nat, 2%nat, 0%nat, 0%nat);
   ("py", "ComplexNew", 2%nat, 0%nat, 0%nat, 0%nat);
+  ("py", "Complex.M__str__", 1%nat, 0%nat, 0%nat, 0%nat);
   ("py", "init@complex.go", 3%nat, 0%nat, 0%nat, 0%nat);
   ("py", "init@dict.go", 4%nat, 3%nat, 0%nat, 0%nat);
   ("py", "DictNew", 0%nat, 3%nat, 0%nat, 0%nat);
@@ -64,6 +63,7 @@ Definition audited_risky : list (string * string * nat * nat * nat * nat) := [
   ("py", "init@file.go", 5%nat, 0%nat, 0%nat, 0%nat);
   ("py", "File.Write", 1%nat, 0%nat, 0%nat, 0%nat);
   ("py", "File.ReadLine", 0%nat, 2%nat, 0%nat, 0%nat);
+  ("py", "Float.M__str__", 0%nat, 0%nat, 1%nat, 0%nat);
   ("py", "FloatFromString", 0%nat, 1%nat, 0%nat, 0%nat);
   ("py", "NewFrame", 0%nat, 0%nat, 2%nat, 0%nat);
   ("py", "Frame.PushBlock", 0%nat, 1%nat, 0%nat, 0%nat);
@@ -78,8 +78,6 @@ Definition audited_risky : list (string * string * nat * nat * nat * nat) := [
   ("py", "XImportModuleLevelObject", 4%nat, 0%nat, 5%nat, 0%nat);
   ("py", "BuiltinImport", 1%nat, 0%nat, 0%nat, 0%nat);
   ("py", "IntFromString", 0%nat, 8%nat, 2%nat, 0%nat);
-  ("py", "Int.M__truediv__", 1%nat, 0%nat, 0%nat, 0%nat);
-  ("py", "Int.M__rtruediv__", 1%nat, 0%nat, 0%nat, 0%nat);
   ("py", "Iterator.M__next__", 0%nat, 1%nat, 0%nat, 0%nat);
   ("py", "init@list.go", 2%nat, 3%nat, 0%nat, 0%nat);
   ("py", "NewListFromStrings", 0%nat, 1%nat, 0%nat, 0%nat);
